@@ -21,6 +21,8 @@ from mc.flo import runner
 def family():
     from mc.flo import families as F
     yield from F.fam_clocks(F.DYADIC_TICKS + F.DECIMAL_TICKS)
+    if core.TIER != "quick":
+        yield from F.fam_clocks_deep()
 
 
 def on_prog(p, idx, label, prog, meta):
@@ -36,7 +38,7 @@ def on_prog(p, idx, label, prog, meta):
         runner.violation(p, idx, "run-" + rr.outcome, label, "run did not return %r" % (rr.exc,), dict(text=text))
         return
     p.states += len(rr.ticks)
-    probs = monitors.mon_clocks(prog, rr, framer_names=meta["clocked"])
+    probs = monitors.mon_clocks(prog, rr, framer_names=meta["clocked"]) if meta["clocked"] else []
     if probs:
         g, d = probs[0]
         runner.violation(p, idx, g, label, d, dict(text=text, tick=meta["tick"], T=meta["T"], N=meta["N"]))
@@ -47,7 +49,7 @@ def on_prog(p, idx, label, prog, meta):
         runner.violation(p, idx, d[0], label, d[1], dict(text=text))
         return
     # ideal firing index of the first timeout (frame a of the 'cycle' chain)
-    name = meta["clocked"][0]
+    name = meta["clocked"][0] if meta["clocked"] else "m"
     fires = [k for k, evs in enumerate(rr.events[:len(rr.ticks)]) if any(e[0] == name and e[2] == "enter" for e in evs)]
     p.transitions += len(fires)
     p.outcome("fires:%d" % min(len(fires), 12))
